@@ -39,6 +39,8 @@ EXPLANATION += ' RV-FP-HSEM.'
 
 EXPLANATION += ' A64-CFR-BITS, RV-CFR-BITS.'
 
+EXPLANATION += ' LW-POS-EXEC, RVV-RT-GENINPUT, A64-RT-CALLDEST, VM-INITORDER, X86-ISA-BASE.'
+
 
 def run(ctx, R):
     F = astq.Facts(ctx, 'K0')
